@@ -280,7 +280,22 @@ class A_Meth:
     @property
     def prop(self):
         return None
+    def noself(*args, **kwargs):
+        return a_kwonly_only(*args, **kwargs)
+    opts = None
+    def starattr(self, *args, **kwargs):
+        return callee(*args, **self.opts)
+    def starattr_args(self, *args, **kwargs):
+        return callee(*self.opts, **kwargs)
 a_meth = A_Meth()
+a_noself = a_meth.noself
+a_starattr = a_meth.starattr
+a_starattr_args = a_meth.starattr_args
+class A_Unhashable:
+    __hash__ = None
+    def __call__(self, *args, **kwargs):
+        return callee(*args, **kwargs)
+a_unhashable = A_Unhashable()
 a_bound = a_meth.m
 a_cls = A_Meth.c
 a_partial_obj = functools.partial(a_posonly, callee)
@@ -481,6 +496,7 @@ def run(ctx, rep):
                 'bodies, decorators, lambdas, loops, except-as, import-as, no-source, builtins); distinct non-trivial = discovery refined the plain signature'
                 % (len(STDLIB), len(THIRD), 'fixed slice' if ctx.quick else 'all', len(adv)))
     narrow_reqs, narrow_meta = [], []
+    prog_sources = {}
     vis_reqs, vis_impl, vis_names = [], [], []
     for name, obj in objs:
         rep.evaluations += 1
@@ -523,6 +539,15 @@ def run(ctx, rep):
                     rep.violation('C07:total', '%s(wrapper) raised %s although inspect.signature succeeds\n%s'
                                   % (label, r[1], p.source), {'kind': 'program', 'source': p.source})
                     break
+                # narrowing of plain functions: the result never accepts what the def rejects
+                if (label == 'sigtools.signature' and base[0] == 'ok' and r[0] == 'ok'
+                        and p.route in ('global', 'closure', 'attribute') and is_plain(o)):
+                    d_got = shape_only(describe_sig(r[1]))
+                    d_own = shape_only(describe_sig(S.UpgradedSignature._upgrade_with_warning(base[1])))
+                    if d_got['params'] != d_own['params']:
+                        narrow_reqs.append('incl %s %s' % (tok_sig(d_got), tok_sig(d_own)))
+                        narrow_meta.append(('generated program\n' + p.source, d_got, d_own))
+                        prog_sources[len(narrow_meta) - 1] = p.source
         finally:
             PG.unload(pns)
     rep.evaluations += len(progs)
@@ -535,13 +560,15 @@ def run(ctx, rep):
     stats['visitor_trees'] = len(vis_reqs)
     stats['visitor_calls'] = ncalls
     answers = ask(narrow_reqs)
-    for (name, d_got, d_own), ans in zip(narrow_meta, answers):
+    for idx_, ((name, d_got, d_own), ans) in enumerate(zip(narrow_meta, answers)):
         cex = parse_cex(ans)
         stats['narrow_decided'] += 1
         if cex is not None:
+            rp = {'kind': 'object', 'name': name, 'label': 'narrow'}
+            if idx_ in prog_sources:
+                rp = {'kind': 'program-narrow', 'source': prog_sources[idx_]}
             rep.violation('C07:narrow', 'sigtools.signature(%s) = %s accepts call %s that its own parameter list %s rejects'
-                          % (name, show_sig(d_got), show_call(cex), show_sig(d_own)),
-                          {'kind': 'object', 'name': name, 'label': 'narrow'})
+                          % (name, show_sig(d_got), show_call(cex), show_sig(d_own)), rp)
     for name, obj in adv[:3] + corpus[:3]:
         rep.sample({'object': name, 'sigtools.signature': str(outcome(sigtools.signature, obj)[1])})
     rep.coverage.update(dict(stats))
@@ -555,6 +582,20 @@ def run(ctx, rep):
 
 def replay(ctx, data):
     r = data['replay']
+    if r.get('kind') == 'program-narrow':
+        pns = PG.load_module(r['source'])
+        try:
+            o = pns['wrapper']
+            got = outcome(sigtools.signature, o)
+            base = outcome(inspect.signature, o)
+            if got[0] != 'ok' or base[0] != 'ok':
+                return None
+            d_got = shape_only(describe_sig(got[1]))
+            d_own = shape_only(describe_sig(S.UpgradedSignature._upgrade_with_warning(base[1])))
+            cex = parse_cex(ask(['incl %s %s' % (tok_sig(d_got), tok_sig(d_own))])[0])
+            return None if cex is None else 'reported %s accepts %s rejected by the def' % (show_sig(d_got), show_call(cex))
+        finally:
+            PG.unload(pns)
     if r.get('kind') == 'program':
         pns = PG.load_module(r['source'])
         try:
